@@ -197,8 +197,10 @@ CHECKS = {
               "fields with every wire type 0..5; (b) for the all-fields rows and every 5th [every] single-field value, encoded with "
               "packed repeated fields: every truncation, the same under length-delimited framing (prefix promises more than is "
               "there: must be rejected), bit flips of bits {0,2,7} [all 8] at every position, every length prefix at every nesting "
-              "level overwritten by len+1, len-1, 127, 2^14, 2^31-1, 2^32-1, 2^32, 2^63, 2^64-1; each with a Bytes buffer and a "
-              "two-chunk buffer; (c) nesting depth 1..300 and 5000 / 200 000 [10^3..10^6 for groups] through every recursive position "
+              "level overwritten by len+1, len-1, 127, 2^14, 2^31-1, 2^32-1, 2^32, 2^63, 2^64-1, and by varints of 10, 11 and 12 bytes that "
+              "overflow or never terminate (also in place of the first key); each with a Bytes buffer and two-chunk buffers split at "
+              "len/2 and at every offset around the fault (before, inside and after the flipped byte / rewritten varint; all split "
+              "points for the short strings of (a)); (c) nesting depth 1..300 and 5000 / 200 000 [10^3..10^6 for groups] through every recursive position "
               "(singular, repeated, map value, group fields of the hand-written message) and through unknown groups in any message. "
               "Oracle: Ok or DecodeError - no panic, no worker death (stack overflow, abort), < 2 s; bytes allocated <= 64 KiB + "
               "4 x len x (largest message size_of + 64); a length prefix larger than the remaining input is rejected with at most "
@@ -449,7 +451,11 @@ def run_check(pid, tier, seed):
         m["caps"] += capped
         # worker deaths are observations
         for d in deaths:
-            sig = "%s%s|worker-death|rc=%s" % (pid, DEATH_TAGS.get(d.get("tag", 0), ""), d["rc"])
+            if d.get("hang"):
+                # the worker's watchdog stopped it: the announced case did not finish within the per-case limit
+                sig = "%s%s|worker-hang" % (pid, DEATH_TAGS.get(d.get("tag", 0), ""))
+            else:
+                sig = "%s%s|worker-death|rc=%s" % (pid, DEATH_TAGS.get(d.get("tag", 0), ""), d["rc"])
             g = m["failures"].setdefault(sig, {"sig": sig, "count": 0, "first_index": d["index"],
                                                "case": {"index": d["index"], "shard": d["shard"], "part": i},
                                                "detail": d["log_tail"][-300:]})
@@ -536,11 +542,11 @@ def replay(path):
         return importlib.import_module(c["engine"][3:]).replay(path)
     engine = r.get("engine", c["engine"])
     binpath, _, _ = engine_bin(engine, r.get("tier", "quick"))
-    if "worker-death" in r.get("sig", "") and "index" in r.get("case", {}):
+    if ("worker-death" in r.get("sig", "") or "worker-hang" in r.get("sig", "")) and "index" in r.get("case", {}):
         # a case that killed the worker: re-run exactly that case index in a child process
         out = os.path.join(WORK, "replay_only.json")
         p = subprocess.run([binpath, pid, "--tier", r.get("tier", "quick"), "--shard", "0/1", "--only",
-                            str(r["case"]["index"]), "--out", out] + c.get("args", []), cwd=ROOT, env=vlib.ENV,
+                            str(r["case"]["index"]), "--out", out, "--progress", os.path.join(WORK, "replay_prog")] + c.get("args", []), cwd=ROOT, env=vlib.ENV,
                            stdout=subprocess.PIPE, stderr=subprocess.STDOUT, text=True)
         print(p.stdout[-800:])
         if p.returncode not in (0, 1):
